@@ -258,6 +258,11 @@ def rule_optional_subscript(ctx):
                         return True
         return False
 
+    all_slot_names = {a_ for r_ in tm.classes.values() for a_, _b in r_["slots"]}
+
+    def hasattr_static(cls_, name):
+        """a real Python attribute (method, class attribute) of that name exists on the class: not a property read"""
+        return any(name in getattr(k_, "methods", {}) or name in getattr(k_, "class_attrs", {}) for k_ in cls_.mro if hasattr(k_, "methods"))
     n = 0
     targets = []
     for f in prog.functions.values():
@@ -275,9 +280,40 @@ def rule_optional_subscript(ctx):
                 k = x.slice.value
                 err = "KeyError"
             elif isinstance(x, ast.Attribute) and isinstance(x.ctx, ast.Load) and norm(x.value) == recv and not x.attr.startswith("_") \
-                    and recv == "self" and not isinstance(getattr(x, "parent", None), ast.Call) and slot_everywhere(cls, x.attr):
+                    and recv == "self" and not (isinstance(getattr(x, "parent", None), ast.Call) and x.parent.func is x) \
+                    and (slot_everywhere(cls, x.attr) or (x.attr in all_slot_names and not hasattr_static(cls, x.attr))):
                 k = x.attr
                 err = "AttributeError"
+            # '{0.id} ...'.format(self): an attribute read hidden in a format template
+            if k is None and isinstance(x, ast.Call) and isinstance(x.func, ast.Attribute) and x.func.attr == "format" and recv == "self":
+                import string
+                tmpl = None
+                if isinstance(x.func.value, ast.Constant) and isinstance(x.func.value.value, str):
+                    tmpl = x.func.value.value
+                elif isinstance(x.func.value, ast.Name):
+                    cands = [a_.value.value for a_ in body_walk(f.node) if isinstance(a_, ast.Assign) and norm(a_.targets[0]) == x.func.value.id
+                             and isinstance(a_.value, ast.Constant) and isinstance(a_.value.value, str)]
+                    tmpl = cands[0] if len(cands) == 1 else None
+                if tmpl is not None:
+                    try:
+                        fields = [fl_ for _l, fl_, _s, _c in string.Formatter().parse(tmpl) if fl_]
+                    except ValueError:
+                        fields = []
+                    for fl_ in fields:
+                        head, _dot, rest = fl_.partition(".")
+                        idx = int(head) if head.isdigit() else (0 if head == "" else None)
+                        attr = rest.split(".")[0].split("[")[0] if rest else None
+                        if idx is None or attr is None or idx >= len(x.args) or norm(x.args[idx]) != "self":
+                            continue
+                        if attr in all_slot_names and (attr, cls.id) not in seen:
+                            seen.add((attr, cls.id))
+                            n += 1
+                            ok = always_present(cls, attr) or presence_known(x, recv, attr) or catches(x, ("AttributeError",))
+                            run.check(ok, R, key(f.module.relpath, f.qualname, "%s[%s]@%s" % (recv, attr, cls.name)),
+                                      "AttributeError can escape: the message template %r reads self.%s, which is %s for %s" % (
+                                          tmpl[:40], attr, "optional" if slot_everywhere(cls, attr) else "not a property at all",
+                                          cls.name), file=f.module.relpath, line=x.lineno, function=f.qualname,
+                                      expected="a property every object of the class has", found=short(x, 80))
             if k is None or (k, cls.id) in seen:
                 continue
             seen.add((k, cls.id))
